@@ -290,6 +290,17 @@ def check(chk):
         w = cfg.must_pass(n.id, [x.id for x in rp]) if not any(cfg.dominates(x.id, n.id) for x in rp) else None
         chk.ob("FLAG-3", "Timer.start cancels a pending timed pause", bool(rp) and w is None, f.where(c), construct=f.ident,
                text="start removes pause")
+    # whoever (re)creates the periodic tick leaves it armed: no removal of the system timer after the creation on any path
+    for name in ("start", "jump", "set_tick_interval", "change_tick_interval", "restart"):
+        f2 = tm.methods.get(name)
+        if f2 is None:
+            continue
+        c2 = f2.cfg()
+        for n, c in c2.calls_named("_create_system_timer"):
+            chk.analysed(f2)
+            after = [x for x, cc in c2.calls_named("_remove_system_timer") if x.id in c2.reachable([n.id], include_start=False)]
+            chk.ob("FLAG-3", "Timer.%s leaves the tick it created armed (no removal after the creation)" % name, not after, f2.where(c), construct=f2.ident,
+                   text="tick removed after creation in " + name)
     for name in ("stop", "pause"):
         f = tm.methods.get(name)
         chk.require(f is not None, "C13: Timer.%s vanished" % name)
@@ -562,6 +573,7 @@ def battery():
         M("unnamed delays share one key", DL, "        if not name:\n            name = str(uuid.uuid4())\n", "", "FWD-13"),
         M("add returns nothing", DL, "            ms / 1000.0), partial(callback, **kwargs))\n\n        return name", "            ms / 1000.0), partial(callback, **kwargs))\n", "FWD-13"),
         M("pause delay unnamed", TM, "self.delay.add(name='pause', ms=pause_ms,", "self.delay.add(ms=pause_ms,", "FLAG-3"),
+        M("jump() removes the tick it has just created", TM, "        self._remove_system_timer()\n        self._create_system_timer()\n\n        self._check_for_done()", "        self._create_system_timer()\n        self._remove_system_timer()\n\n        self._check_for_done()", "FLAG-3"),
     ]
 
 
